@@ -8,6 +8,7 @@ import (
 	"encoding/json"
 	"fmt"
 	"google.golang.org/protobuf/internal/strs"
+	"math"
 	"os"
 	"reflect"
 	"strings"
@@ -130,6 +131,7 @@ func run(c *core.Ctx) {
 			c.DistinctN(int64(nw))
 			// generated getters, called on a freshly decoded message BEFORE any reflective access
 			// (lazy fields are decoded by the getter itself)
+			recs = append([]univ.Rec{{Name: "(empty input)"}}, recs...)
 			for ri := range recs {
 				in := recs[ri].B
 				c.Eval(1)
@@ -143,9 +145,23 @@ func run(c *core.Ctx) {
 						return
 					}
 					gv := reflect.ValueOf(g.Interface())
+					plainNames := true
+					seenKey := map[string]bool{}
+					for i := 0; i < md.Fields().Len(); i++ {
+						k := strings.ToLower(strings.ReplaceAll(string(md.Fields().Get(i).Name()), "_", ""))
+						for _, pfx := range []string{"get", "set", "has", "clear", "which", "reset", "string", "proto", "descriptor", "build", "marshal"} {
+							if strings.HasPrefix(k, pfx) {
+								plainNames = false
+							}
+						}
+						if seenKey[k] {
+							plainNames = false
+						}
+						seenKey[k] = true
+					}
 					for i := 0; i < md.Fields().Len(); i++ {
 						fd := md.Fields().Get(i)
-						if fd.Message() == nil || fd.IsList() || fd.IsMap() {
+						if fd.IsList() || fd.IsMap() {
 							continue
 						}
 						gm := gv.MethodByName("Get" + strs.GoCamelCase(string(fd.Name())))
@@ -153,6 +169,51 @@ func run(c *core.Ctx) {
 							continue
 						}
 						out := gm.Call(nil)[0]
+						if fd.Message() == nil {
+							if !plainNames {
+								continue // Get<Name> does not identify the field in name-collision schemas
+							}
+							// scalar getters: the value dynamicpb reports (the default when unset)
+							var g, w string
+							switch out.Kind() {
+							case reflect.Int32, reflect.Int64:
+								g = fmt.Sprint(out.Int())
+							case reflect.Uint32, reflect.Uint64:
+								g = fmt.Sprint(out.Uint())
+							case reflect.Float32, reflect.Float64:
+								g = fmt.Sprint(math.Float64bits(out.Float()))
+							case reflect.Bool:
+								g = fmt.Sprint(out.Bool())
+							case reflect.String:
+								g = fmt.Sprintf("%q", out.String())
+							case reflect.Slice:
+								g = fmt.Sprintf("%q", string(out.Bytes()))
+							default:
+								continue
+							}
+							switch x := d.Get(fd).Interface().(type) {
+							case int32, int64, uint32, uint64, bool:
+								w = fmt.Sprint(x)
+							case protoreflect.EnumNumber:
+								w = fmt.Sprint(int32(x))
+							case float32:
+								w = fmt.Sprint(math.Float64bits(float64(x)))
+							case float64:
+								w = fmt.Sprint(math.Float64bits(x))
+							case string:
+								w = fmt.Sprintf("%q", x)
+							case []byte:
+								w = fmt.Sprintf("%q", string(x))
+							}
+							if x, ok := d.Get(fd).Interface().(float64); ok && x != x || g == w {
+								continue
+							}
+							if x, ok := d.Get(fd).Interface().(float32); ok && x != x {
+								continue
+							}
+							c.Violation(fmt.Sprintf("generated getter Get%s returns %s, dynamicpb says %s (populated=%v): type=%s (%s) wire=%s", strs.GoCamelCase(string(fd.Name())), g, w, d.Has(fd), name, e.Level, recs[ri].Name), nil)
+							continue
+						}
 						has := d.Has(fd)
 						if out.Kind() != reflect.Ptr {
 							continue
